@@ -16,6 +16,20 @@ from aval import (AInt, AFloat, AAgg, ARef, ATop, AFn, ASym, mask, to_signed)
 import aval
 
 
+def short_fn(path):
+    """function path without module segments (free functions keep their top-level module): moves between modules do not change it"""
+    if '<impl' in path:
+        path = path[path.index('<impl'):]
+        return re.sub(r'\b(?:[a-z_][a-z_0-9]*::)+(?=[A-Za-z_<])', '', path)
+    segs = path.split('::')
+    return segs[0] + '::' + segs[-1] if len(segs) > 2 else path
+
+
+def site_key(site):
+    """(function, instance) strings of a panic site for finding keys"""
+    return short_fn(site[0]), site[1] + ('(%s)' % site[2] if site[2] else '')
+
+
 class Undecided(Exception):
     def __init__(self, where, why):
         self.where = where
@@ -1166,25 +1180,24 @@ class Interp:
 
     @staticmethod
     def site_of(body, bb, tkind, akind):
-        n = 0
-        for i, b in enumerate(body['blocks']):
-            tt = b['term']
-            if tt['t'] == tkind and tt.get('kind') == akind:
-                if i == bb:
-                    return (body['path'], akind, n)
-                n += 1
-        return (body['path'], akind, -1)
+        """line-free identity of an assertion: (function, kind, operand shape) - literal operands by value, const generics by name,
+        everything else `_`; stable under statement reordering, added code and moves between modules"""
+        tt = body['blocks'][bb]['term']
+        shp = []
+        for o in tt.get('ops', []):
+            c = o.get('const')
+            if c is not None and 'scalar' in c:
+                v = c['scalar']
+                shp.append(str(v) if v < 4096 else hex(v))
+            elif c is not None and 'param' in c:
+                shp.append(c['param'])
+            else:
+                shp.append('_')
+        return (body['path'], akind, ','.join(shp))
 
     @staticmethod
     def site_of_call(body, t):
-        n = 0
-        for b in body['blocks']:
-            tt = b['term']
-            if tt['t'] == 'call' and tt['target'] < 0:
-                if tt is t:
-                    return (body['path'], 'explicit', n)
-                n += 1
-        return (body['path'], 'explicit', -1)
+        return (body['path'], 'explicit', '')
 
     def switch(self, frame, t, d):
         if isinstance(d, AInt):
